@@ -1,5 +1,6 @@
 (* C20 — building, compiling and calling a pipeline cost time polynomial in its size. *)
 From Connectome Require Import Values VM GraphGen TravGen Cost.
+From Connectome Require VmGen.
 From Connectome Require EvictGen GraphGen.
 Local Open Scope list_scope.
 
@@ -43,3 +44,11 @@ Theorem C20_eviction_tables_are_translated :
   /\ GraphGen.graph_multiplier = 2 /\ GraphGen.fresh_counts_per_call = true /\ GraphGen.count_rule = "path-count-dp".
 Proof. repeat split; reflexivity. Qed.
 Print Assumptions C20_eviction_tables_are_translated.
+
+(* The machine model (Model/VM.v: step, run) mirrors engine/vm.py execute arm by arm and is compared with it on full event traces.
+   The fingerprints (sha256 of the normalised body) are regenerated on every run; an edit of one of these functions re-opens this property
+   even if no sampled case shows a difference. *)
+Theorem C20_mirrored_functions_are_the_pinned_ones :
+  VmGen.shape_execute = "3390af1da9648cc9".
+Proof. repeat split; reflexivity. Qed.
+Print Assumptions C20_mirrored_functions_are_the_pinned_ones.
